@@ -30,6 +30,7 @@ type ddesc struct{ num, size, idx byte }
 type defn struct {
 	local  byte
 	resv   byte // the reserved byte after the record header (readers ignore it)
+	hbits  byte // extra bits of the record header byte itself (bit 0x10 is reserved; readers ignore it)
 	arch   byte // 0 little, 1 big
 	global uint16
 	fields []fdef
@@ -40,7 +41,7 @@ type defn struct {
 type recs struct{ bytes.Buffer }
 
 func (b *recs) def(d defn) {
-	h := byte(0x40) | (d.local & 0x0F)
+	h := byte(0x40) | (d.local & 0x0F) | (d.hbits & 0x10)
 	if d.devBit {
 		h |= 0x20
 	}
@@ -66,6 +67,13 @@ func (b *recs) def(d defn) {
 
 func (b *recs) data(local byte, payload []byte) {
 	b.WriteByte(local & 0x0F)
+	b.Write(payload)
+}
+
+// dataX: a data record whose header byte carries extra bits next to the local type (0x10 reserved,
+// 0x20 the developer flag, which only means something on definitions): readers mask them off
+func (b *recs) dataX(local, extra byte, payload []byte) {
+	b.WriteByte(local&0x0F | extra&0x30)
 	b.Write(payload)
 }
 
